@@ -725,6 +725,7 @@ func runC19(c *Ctx) {
 	checkGenericErrorDiscipline(c, "pkg/wal", "pkg/model")
 	checkWALCollectorDrains(c, "listing.collector-drains")
 	checkPutSourceFreshPerAttempt(c, "add.source-fresh-per-attempt", "pkg/wal", "pkg/core", "pkg/cafs")
+	checkWALListEntriesSinglePage(c, "listing.single-token-page")
 }
 
 func enumPutSitesAny(p *Prog, pkgs ...string) []putSite { return enumPutSites(p, pkgs...) }
@@ -1453,6 +1454,7 @@ func runC22(c *Ctx) {
 	}
 	checkRangeToReadAlwaysWalks(c, "range-to-read.always-walks")
 	checkTrackerTxnCommitted(c, "txn-committed")
+	checkEffectDominance(c, "effects.dominance", "pkg/filetracker")
 }
 
 func nos(s string) string { return strings.ReplaceAll(s, " ", "") }
